@@ -95,37 +95,45 @@ Print Assumptions C04_lex_render.
 
 (* the tosieve layout of a printable script is lexed back as the tokens of the script *)
 Theorem C04_layout_lexes :
+  forall sepw : bytes -> bytes,
+  (forall name : bytes, all_space (sepw name)) ->
   forall cs : list gcmd,
   Forall cmd_pr cs ->
-  snd (lex (script_text cs)) = None /\
-  map strip_pos (fst (lex (script_text cs))) = flat_map toks_cmd cs.
+  snd (lex (script_text sepw cs)) = None /\
+  map strip_pos (fst (lex (script_text sepw cs))) = flat_map toks_cmd cs.
 Proof. exact PrintTree.layout_lexes. Qed.
 Print Assumptions C04_layout_lexes.
 
 (* ... and parses to its tree *)
 Theorem C04_layout_parses :
+  forall sepw : bytes -> bytes,
+  (forall name : bytes, all_space (sepw name)) ->
   forall (T : tables) (cs : list gcmd) (ns : list node) (L' : list bytes),
   twf_tables T = true ->
-  wf_cmds T [] None cs ns L' -> Forall cmd_pr cs -> parse T (script_text cs) = Accept ns.
+  wf_cmds T [] None cs ns L' -> Forall cmd_pr cs -> parse T (script_text sepw cs) = Accept ns.
 Proof. exact PrintTree.layout_parses. Qed.
 Print Assumptions C04_layout_parses.
 
 (* the model of Command.tosieve prints exactly that layout for a tree in canonical form *)
 Theorem C04_tosieve_layout :
+  forall sepw : bytes -> bytes,
+  (forall name : bytes, all_space (sepw name)) ->
   forall (cs : list gcmd) (ns : list node) (f : nat),
-  Forall2 canon_cmd cs ns ->
+  Forall2 (canon_cmd sepw) cs ns ->
   cs <> [] ->
   fold_right (fun (x : gcmd) (m : nat) => Nat.max (dc x) m) 0 cs <= f ->
-  tosieve_all f ns = script_text cs.
+  tosieve_all f ns = script_text sepw cs.
 Proof. exact PrintTree.tosieve_layout. Qed.
 Print Assumptions C04_tosieve_layout.
 
 (* tree level: parse (print tree) = tree *)
 Theorem C04_print_parse_roundtrip :
+  forall sepw : bytes -> bytes,
+  (forall name : bytes, all_space (sepw name)) ->
   forall (T : tables) (cs : list gcmd) (ns : list node) (L' : list bytes) (f : nat),
   twf_tables T = true ->
   wf_cmds T [] None cs ns L' ->
-  Forall2 canon_cmd cs ns ->
+  Forall2 (canon_cmd sepw) cs ns ->
   cs <> [] ->
   fold_right (fun (x : gcmd) (m : nat) => Nat.max (dc x) m) 0 cs <= f ->
   parse T (tosieve_all f ns) = Accept ns.
@@ -134,10 +142,12 @@ Print Assumptions C04_print_parse_roundtrip.
 
 (* printing the re-parsed tree reproduces the text *)
 Theorem C04_print_fixed_point :
+  forall sepw : bytes -> bytes,
+  (forall name : bytes, all_space (sepw name)) ->
   forall (T : tables) (cs : list gcmd) (ns : list node) (L' : list bytes) (f : nat),
   twf_tables T = true ->
   wf_cmds T [] None cs ns L' ->
-  Forall2 canon_cmd cs ns ->
+  Forall2 (canon_cmd sepw) cs ns ->
   cs <> [] ->
   fold_right (fun (x : gcmd) (m : nat) => Nat.max (dc x) m) 0 cs <= f ->
   match parse T (tosieve_all f ns) with
@@ -156,7 +166,8 @@ Theorem C04_legal_canonical :
   legal d L args = LComplete am em ->
   exists (cargs : list argument) (am' em' : list (bytes * aval)),
     legal d L cargs = LComplete am' em' /\
-    meq am' am /\ meq em' em /\ slots_args d am em (d_args d) cargs /\ Forall argP cargs.
+    meq am' am /\
+    meq em' em /\ slots_args [32%N] d am em (d_args d) cargs /\ Forall argP cargs.
 Proof. exact CanonFacts.legal_canonical. Qed.
 Print Assumptions C04_legal_canonical.
 
@@ -207,7 +218,7 @@ Print Assumptions C04_example_multiline.
 
 (* non-vacuity on the tables generated from /repo: the tree of the example script (require, if/elsif/else, anyof, not, nested blocks, tags with parameters, numbers, lists) is canonical *)
 Theorem C04_example_canonical :
-  Forall2 canon_cmd ex_script ex_nodes.
+  Forall2 (canon_cmd std_sep) ex_script ex_nodes.
 Proof. exact PrintExamples.ex_canon. Qed.
 Print Assumptions C04_example_canonical.
 
